@@ -8,7 +8,7 @@
    `parse` accepts the text is proved only where a theorem below says so ([parse …]), and is
    otherwise tested by the correspondence run (rt cases). *)
 From GixV.Base Require Import Bytes BytesFacts Outcome.
-From GixV.C52 Require Import Tables Model ProofsCal ProofsNum ProofsText ProofsRT.
+From GixV.C52 Require Import Tables Model ProofsCal ProofsNum ProofsText ProofsRT ProofsParse ProofsStrict ProofsShort ProofsUnix.
 Local Open Scope Z_scope.
 
 (* the calendar contract: every day number has a valid civil date, and that date's day number is the input *)
@@ -67,9 +67,50 @@ Theorem iso8601_roundtrip_own : forall s o sg text,
   strptime_relaxed fmt_ISO8601 text = Some (s, o).
 Proof. exact iso8601_own. Qed.
 
+(* … and so does the whole of gix_date::parse: the special-cased string cannot occur, the SHORT and
+   RFC 2822 attempts reject the text, the ISO8601 attempt returns Time::new(instant, offset).
+   This is the property statement for ISO8601 in full (sign = sign of the offset, as Time::new sets it). *)
+Theorem iso8601_roundtrip : forall s o sg text,
+  TS_MIN <= s <= TS_MAX -> - OFF_MAX <= o <= OFF_MAX ->
+  format (KCustom fmt_ISO8601) (mkT s o sg) = Ok text ->
+  parse text None = Ok (time_new s o).
+Proof. exact iso8601_parse. Qed.
+
+(* ISO8601_STRICT: same, through the SHORT, RFC 2822 and ISO8601 attempts (which all reject) *)
+Theorem iso8601_strict_roundtrip : forall s o sg text,
+  TS_MIN <= s <= TS_MAX -> - OFF_MAX <= o <= OFF_MAX ->
+  format (KCustom fmt_ISO8601_STRICT) (mkT s o sg) = Ok text ->
+  parse text None = Ok (time_new s o).
+Proof. exact strict_parse. Qed.
+
+(* SHORT: the text carries the civil date at the offset and nothing else; parse returns midnight UTC
+   of that date (when that midnight is itself inside jiff's range) *)
+Theorem short_roundtrip_civil_date : forall s o sg text,
+  TS_MIN <= s <= TS_MAX -> - OFF_MAX <= o <= OFF_MAX ->
+  let midnight := (s + o) / 86400 * 86400 in
+  TS_MIN <= midnight <= TS_MAX ->
+  format (KCustom fmt_SHORT) (mkT s o sg) = Ok text ->
+  parse text None = Ok (time_new midnight 0).
+Proof. exact short_parse. Qed.
+
+(* UNIX: the text carries the instant; i64::from_str (the UNIX attempt of parse) reads it back for
+   every i64 — own attempt only: that the six earlier attempts reject a bare number is tested *)
+Theorem unix_roundtrip_own : forall s, I64_MIN <= s <= I64_MAX ->
+  forall t text, secs t = s -> format KUnix t = Ok text -> i64_from_str text = Some s.
+Proof.
+  intros s H t text <- E. rewrite format_unix_total in E. apply Ok_inj in E. subst text. exact (unix_own _ H).
+Qed.
+
 (* non-vacuity: the instant of gix-date's own tests *)
 Example iso8601_example :
   format (KCustom fmt_ISO8601) (mkT 123456789 9000 false) = Ok (bs "1973-11-30 00:03:09 +0230") /\
   parse (bs "1973-11-30 00:03:09 +0230") None = Ok (mkT 123456789 9000 false) /\
   TS_MIN <= 123456789 <= TS_MAX /\ - OFF_MAX <= 9000 <= OFF_MAX.
 Proof. vm_compute. repeat split; discriminate. Qed.
+
+Example strict_short_example :
+  parse (bs "1973-11-30T00:03:09+02:30") None = Ok (mkT 123456789 9000 false) /\
+  format (KCustom fmt_SHORT) (mkT 123456789 9000 false) = Ok (bs "1973-11-30") /\
+  parse (bs "1973-11-30") None = Ok (mkT ((123456789 + 9000) / 86400 * 86400) 0 false) /\
+  parse (bs "-62167219200") None = Ok (mkT (-62167219200) 0 false).
+Proof. vm_compute. repeat split. Qed.
